@@ -32,7 +32,7 @@ var BreakKinds = []string{
 	"type/undefined-local", "type/undefined-in-include", "type/unknown-include-prefix", "type/constant-used-as-type", "type/service-used-as-type",
 	"type/undefined-in-container", "type/undefined-typedef-target", "type/undefined-function-result", "type/undefined-argument", "type/undefined-throws", "type/undefined-const-type",
 	"typedef/cycle", "typedef/self", "typedef/cycle-with-selector-constant",
-	"value/undefined-identifier", "value/undefined-identifier-in-include", "value/undefined-enum-member", "value/ambiguous-identifier",
+	"value/undefined-identifier", "value/undefined-identifier-in-include", "value/undefined-enum-member", "value/ambiguous-identifier", "value/ambiguous-identifier-two-includes",
 	"value/string-for-integer", "value/string-for-double", "value/integer-for-string", "value/list-for-integer", "value/unknown-field-in-struct-literal", "value/non-string-key-in-struct-literal",
 	"value/string-for-bool",
 	"function/oneway-returns", "function/oneway-throws",
@@ -452,6 +452,31 @@ func Break(rng *vlib.Rng, p *Program, kind string) (b *Broken, ok bool) {
 				f.Defs = append([]*Def{{Kind: KEnum, Name: g.Prefix(), File: f, EnumVals: []*EnumVal{{Name: "ZZ_AMBIG"}}}}, f.Defs...)
 				g.Defs = append([]*Def{{Kind: KConst, Name: "ZZ_AMBIG", File: g, Type: &Type{Name: "i32"}, Value: &Value{Kind: VInt, Int: 1}}}, g.Defs...)
 				v = &Value{Kind: VIdent, Ident: g.Prefix() + ".ZZ_AMBIG"}
+			case "ambiguous-identifier-two-includes":
+				// two includes with one base name (g and zzdup/<g>) both define the constant
+				if len(f.Includes) == 0 {
+					continue
+				}
+				g := f.Includes[rng.Intn(len(f.Includes))].File
+				dupN := 0
+				for _, inc := range f.Includes {
+					if inc.File.Prefix() == g.Prefix() {
+						dupN++
+					}
+				}
+				if dupN != 1 || g.Find("ZZ_AMBIG2") != nil {
+					continue
+				}
+				s, found = pick(ints...)
+				if !found {
+					continue
+				}
+				dup := &File{Path: "zzdup/" + path.Base(g.Path), Namespaces: []*Namespace{{Lang: "go", Name: "vf.zzdup"}}}
+				dup.Defs = []*Def{{Kind: KConst, Name: "ZZ_AMBIG2", File: dup, Type: &Type{Name: "i32"}, Value: &Value{Kind: VInt, Int: 2}}}
+				g.Defs = append([]*Def{{Kind: KConst, Name: "ZZ_AMBIG2", File: g, Type: &Type{Name: "i32"}, Value: &Value{Kind: VInt, Int: 1}}}, g.Defs...)
+				f.Includes = append(f.Includes, &Include{File: dup, Path: relPath(f.Path, dup.Path)})
+				p.Files = append(p.Files, dup)
+				v = &Value{Kind: VIdent, Ident: g.Prefix() + ".ZZ_AMBIG2"}
 			case "string-for-integer":
 				s, found = pick(ints...)
 				v = &Value{Kind: VString, Str: "twelve"}
@@ -636,6 +661,5 @@ func (b *Broken) ApplyText(rng *vlib.Rng, texts map[string]string) bool {
 	case b.Kind == "syntax/missing-type":
 		texts[name] = txt + "\nstruct ZzBroken { 1: = 5 }\n"
 	}
-	_ = path.Base
 	return true
 }
